@@ -74,6 +74,24 @@ class RefModule:
         self.module = m
 
 
+def _is_unspecified(t):
+    return t[0] == 'ret' and T.is_node(t[1]) and t[1][0] == 'glob' and t[1][1].endswith('__unspecified__')
+
+
+def _mask_unspecified(c, r):
+    """where the reference says `return __unspecified__` (inputs outside what the property quantifies over) any way the code
+    leaves the function there (a value, None, an exception) is accepted"""
+    if not T.is_node(r):
+        if isinstance(r, tuple) and isinstance(c, tuple) and len(c) == len(r):
+            return tuple(_mask_unspecified(x, y) for x, y in zip(c, r))
+        return c
+    if _is_unspecified(r):
+        return r if T.is_node(c) and c[0] in ('ret', 'raise') else c
+    if T.is_node(c) and c[0] == r[0] and len(c) == len(r):
+        return tuple(_mask_unspecified(x, y) for x, y in zip(c, r))
+    return c
+
+
 class Contracts:
     def __init__(self, program):
         self.program = program
@@ -112,7 +130,8 @@ class Contracts:
             dflt = dict(cl.defaults())
             extra = cl.params[len(rl.params):]
             a = cfi.node.args
-            if all(p in dflt for p in extra) and not a.vararg and not a.kwarg:
+            kwonly = {x.arg for x in a.kwonlyargs}
+            if all(p in dflt for p in extra) and not a.kwarg and (not a.vararg or all(p in kwonly for p in extra)):
                 extra_defaults = {p: dflt[p] for p in extra}
             else:
                 raise ParamMismatch(f"{qualname}: code has parameters {cl.params}, reference {rl.params}")
@@ -122,6 +141,33 @@ class Contracts:
         cterm, rterm = cl.term(), rl.term()
         if extra_defaults:
             cterm = T.subst(cterm, extra_defaults)
+        if pid not in (meta.get("raise_class") or ()):
+            # which exception class a refusal uses is not part of any property except where a contract says so
+            # (`raise_class`): `raise Exception(..)` -> `raise ValueError(..)` is not a deviation
+            def anyexc(t):
+                if t[0] == 'raise' and len(t) == 3 and T.is_node(t[1]) and (
+                        t[1][0] == 'glob' or t[1] == T.C('reraise') or
+                        (t[1][0] == 'call' and T.is_node(t[1][1]) and t[1][1][0] == 'glob')):
+                    return ('raise', T.G('Exception'), t[2])
+                return None
+            cterm, rterm = T.replace(cterm, anyexc), T.replace(rterm, anyexc)
+        if meta.get("ignore_stores") and cl.params:
+            # a store that is itself the subject of another property's finding (C09: assume() writes self.variable) is not part
+            # of this contract: code with and without it is accepted here, the purity check reports it
+            obj0_, names_ = T.V(cl.params[0]), set(meta["ignore_stores"])
+
+            def nostore(t):
+                if t[0] in ('ret', 'raise') and len(t) == 3:
+                    return (t[0], t[1], tuple(e for e in t[2] if not (e[0] == 'setattr' and e[1] == obj0_ and e[2] in names_)))
+                return None
+            cterm, rterm = T.replace(cterm, nostore), T.replace(rterm, nostore)
+        if meta.get("observe") == "emptiness":
+            # the properties only speak about whether the returned list is empty (errors(): "returns nothing")
+            def ne(t):
+                if t[0] == 'ret' and len(t) == 3:
+                    return ('ret', T.call(T.G('__nonempty__'), [t[1]]), t[2])
+                return None
+            cterm, rterm = T.replace(cterm, ne), T.replace(rterm, ne)
         aspects = (meta.get("attrs_for") or {}).get(pid) if pid else None
         if aspects is not None and cl.params:
             # this property depends only on some attributes the constructor establishes
@@ -171,6 +217,12 @@ class Contracts:
         for src in meta.get("cases", []):
             lw = T.Lower(T.Scope(self.program, cfi.module, cfi.cls, cfi), set(cl.params))
             bexprs.append((src, T.norm(lw.e(ast.parse(src, mode="eval").body))))
+        # the domain the property quantifies over (source text over the parameter names), assumed to hold: a guard for inputs
+        # outside of it (which the reference leaves unspecified) folds away
+        dexprs = []
+        for src in meta.get("domain", []):
+            lw = T.Lower(T.Scope(self.program, cfi.module, cfi.cls, cfi), set(cl.params))
+            dexprs.append((src, T.norm(lw.e(ast.parse(src, mode="eval").body))))
         for name, sub in cases:
             def rep(t, sub=sub):
                 if t[0] == 'attr' and t[2] in sub:
@@ -178,21 +230,22 @@ class Contracts:
                 return None
             c0 = T.dtree(T.norm(T.replace(cfull, rep) if sub else cfull))
             r0 = T.dtree(T.norm(T.replace(rfull, rep) if sub else rfull))
-            if not bexprs:
+            if not bexprs and not dexprs:
                 out.append((name, T.canon(T.debruijn(c0)), T.canon(T.debruijn(r0))))
                 continue
             import itertools as _it
             for vals in _it.product([True, False], repeat=len(bexprs)):
-                def rep2(t, vals=vals):
-                    for (src, e), v in zip(bexprs, vals):
+                facts = list(zip(bexprs, vals)) + [(d, True) for d in dexprs]
+                def rep2(t, facts=facts):
+                    for (src, e), v in facts:
                         if t == e:
                             return T.C(v)
                     return None
                 nm = name + " " + ", ".join(f"[{src}]={v}" for (src, _), v in zip(bexprs, vals))
-                def under(t, vals=vals):
+                def under(t, facts=facts):
                     # the case assumption also decides what follows from it (x == 'bool' makes x == 'int' false)
                     t = T.canonical(T.replace(t, rep2))
-                    for (src, e), v in zip(bexprs, vals):
+                    for (src, e), v in facts:
                         t = T._assume(t, T.canonical(e), v)
                     return T.canon(t)
                 out.append((nm.strip(), under(c0), under(r0)))
@@ -212,6 +265,8 @@ class Contracts:
                 r = T.fill_holes(c, r, binds)
                 for k, v in binds.items():
                     self.last_binds.setdefault(k, []).extend(v)
+            if T.contains(r, _is_unspecified):
+                c = _mask_unspecified(c, r)
             if c == r:
                 continue
             ops = T.has_opaque(c)
